@@ -320,6 +320,10 @@ func (tsbr *TimeSeriesBlockReader) GetTimeSeriesIterator(tsid uint64) (_ *compre
 	var found bool
 	var offset uint32
 	var tsIDX uint32
+	if tsbr.numTSIDs == 0 {
+		// a block without any series (numTSIDs-1 below would wrap around and the binary search would index far outside the buffer)
+		return nil, false, nil
+	}
 	if !tsbr.first {
 		if tsid < tsbr.lastTSID {
 			found, tsIDX, offset = getOffsetFromTsoFile(tsbr.tsoVersion, 0, tsbr.lastTSidx, uint32(tsbr.numTSIDs), tsid, tsbr.rawTSO)
